@@ -30,7 +30,8 @@ UN = {"neg": ("Qcopp", operator.neg, operator.neg), "abs": ("Vabs", abs, abs),
       "inv": ("(fun x => Qcminus (Qcopp x) (qc 1 1))", operator.invert, lambda x: -x - 1),
       "is_even": ("(fun x => ofb (p_even x))", lambda a: a.is_even(), lambda x: Fraction(int(x % 2 == 0)))}
 PRED = {"even": ("p_even", lambda v: v % 2 == 0), "odd": ("p_odd", lambda v: v % 2 == 1),
-        "gt2": ("(p_gt (qc 2 1))", lambda v: v > 2)}
+        "gt2": ("(p_gt (qc 2 1))", lambda v: v > 2), "all": ("(fun _ => true)", lambda v: True),
+        "none": ("(fun _ => false)", lambda v: False)}
 
 
 # ---- Coq --------------------------------------------------------------------------------
@@ -57,6 +58,10 @@ def ctree(t):
         return f"(RSelect {inner} {clist(ctree(x) for x in t[2])})"
     if k == "filter":
         return f"(RFilter {PRED[t[1]][0]} {clist(ctree(x) for x in t[2])})"
+    if k == "filterby":
+        # one value predicate per source: the verdict depends on where an outcome comes from
+        preds = clist(PRED[n][0] for n in t[1])
+        return f"(RFilterBy (fun i v => nth i {preds} (fun _ => false) v) {clist(ctree(x) for x in t[2])})"
     if k == "subst":
         def cexp(e):
             return "EKeep" if e[0] == "keep" else "EReroll" if e[0] == "reroll" else f"(EOut {cq(e[1])})"
@@ -157,6 +162,22 @@ def build(t):
         if v == 4:
             return R.filter_from_sources_iterable(pred, iter(srcs))
         return R.filter_from_sources(pred, *srcs)
+    if k == "filterby":
+        srcs = [build(x) for x in t[2]]
+        owner = {}
+
+        def walk(r, i):
+            owner[id(r)] = i
+            for s_ in r.sources:
+                walk(s_, i)
+        for i, s_ in enumerate(srcs):
+            walk(s_, i)
+        fs = [PRED[n][1] for n in t[1]]
+
+        def pred_by(o):
+            # the predicate looks at the record: the roller that produced the outcome tells which source it belongs to
+            return fs[owner[id(o.source_roll.r)]](o.value)
+        return R.filter_from_sources(pred_by, *srcs) if _variant(t, 2) else R.filter_from_sources_iterable(pred_by, iter(srcs))
     if k == "subst":
         src = build(t[4])
         tbl = {Fraction(*v): e for v, e in t[1]}
@@ -287,12 +308,15 @@ def enum(t):
             key = tuple(sorted(xs))
             out[key] = out.get(key, 0) + p
         return out
-    if k in ("pool", "select", "filter"):
+    if k in ("pool", "select", "filter", "filterby"):
         srcs = t[1] if k == "pool" else t[2]
         parts = _seq([enum(x) for x in srcs])
 
         def fin(rs):
             vals = tuple(v for r in rs for v in _live(r))
+            if k == "filterby":
+                fs = [PRED[n][1] for n in t[1]]
+                return {tuple((v if fs[i](v) else None) for i, r in enumerate(rs) for v in _live(r)): Fraction(1)}
             if k == "pool":
                 return {vals: Fraction(1)}
             if k == "filter":
@@ -360,7 +384,7 @@ def est_paths(t):
         for x in t[1]:
             n *= est_paths(x)
         return n
-    if k in ("select", "filter"):
+    if k in ("select", "filter", "filterby"):
         n = 1
         for x in t[2]:
             n *= est_paths(x)
@@ -414,7 +438,10 @@ def gen_tree(rng, depth):
                             [{"i": -3}, {"i": -2}], [{"i": 1}, {"i": 0}], [{"s": [None, None, -1]}, {"i": -1}], [{"s": [-2, None, None]}, {"i": -2}]])
         return ["select", which, [sub() for _ in range(rng.randint(1, 2))]]
     if k == "filter":
-        return ["filter", rng.choice(list(PRED)), [sub() for _ in range(rng.randint(1, 2))]]
+        if rng.random() < 0.4:
+            srcs = [sub() for _ in range(rng.randint(2, 3))]
+            return ["filterby", [rng.choice(list(PRED)) for _ in srcs], srcs]
+        return ["filter", rng.choice(["even", "odd", "gt2"]), [sub() for _ in range(rng.randint(1, 2))]]
     tbl = []
     for v in range(-2, 8):
         q = rng.random()
